@@ -62,7 +62,9 @@ def jConfig : Config → Json
   | .spot a b => jObj [("class", jStr "spot"), ("spotsize", jF a), ("spotsize_y", jF b)]
   | .srr c => jObj [("class", jStr "srr"), ("spotsize", jF c.spotsize), ("speed", jF c.speed),
                     ("scantime", jRat c.scantime), ("warmup_n", jInt c.warmupN), ("sub_size", jNat c.subSize),
-                    ("sub_offsets", jList jInt c.subOffsets)]
+                    ("sub_offsets", jList jInt c.subOffsets),
+                    -- the public `subpixel_offsets` property: `[[offset, size], ...]`
+                    ("offsets_public", jList (fun (o : Int) => jList jInt [o, (c.subSize : Int)]) c.subOffsets)]
 
 def asLayer (j : Json) : R Layer := do
   pure { shape := ← getList asNat j "shape", cells := ← getList (asList asInt) j "cells" }
@@ -103,6 +105,90 @@ def jRes : Except Err Laser → Json
 def asPath (j : Json) : R PathInfo := do
   pure { stem := ← fld j "stem" >>= asS, resolved := ← fld j "resolved" >>= asS }
 
+/-! ### operations and histories -/
+
+def asCfgArr (j : Json) : R CfgArr := do
+  match ← getStr j "class" with
+  | "raster" => pure (.raster (← fld j "spotsize" >>= asF) (← fld j "speed" >>= asF) (← fld j "scantime" >>= asF))
+  | "spot" => pure (.spot (← fld j "spotsize" >>= asF) (← fld j "spotsize_y" >>= asF))
+  | "srr" =>
+    pure (.srr (← fld j "spotsize" >>= asF) (← fld j "speed" >>= asF) (← getRat j "scantime") (← getRat j "warmup")
+      (← getList (asPair asInt asInt) j "offsets"))
+  | c => throw s!"bad config class {c}"
+
+def asCalEdit (j : Json) : R CalEdit := do
+  match ← getStr j "what" with
+  | "intercept" => pure (.intercept (← fld j "value" >>= asF))
+  | "gradient" => pure (.gradient (← fld j "value" >>= asF))
+  | "unit" => pure (.unit (← fld j "value" >>= asS))
+  | "rsq" => pure (.rsq (← fld j "value" >>= asOpt asF))
+  | "error" => pure (.error (← fld j "value" >>= asOpt asF))
+  | "points" => pure (.points (← getList (asPair asF asF) j "value"))
+  | "weighting" => pure (.weighting (← fld j "value" >>= asS))
+  | "custom" => pure (.custom (← fld j "name" >>= asS) (← getList asF j "value"))
+  | w => throw s!"bad calibration edit {w}"
+
+def asCfgOp (j : Json) : R CfgOp := do
+  match ← getStr j "what" with
+  | "spotsize" => pure (.spotsize (← fld j "value" >>= asF))
+  | "speed" => pure (.speed (← fld j "value" >>= asF))
+  | "scantime" => pure (.scantime (← fld j "value" >>= asF))
+  | "spotsize_y" => pure (.spotsizeY (← fld j "value" >>= asF))
+  | "warmup" => pure (.warmup (← getRat j "value"))
+  | "offsets" => pure (.offsets (← getList (asPair asInt asInt) j "value"))
+  | "equal_offsets" => pure (.equalOffsets (← getNat j "value"))
+  | w => throw s!"bad config operation {w}"
+
+def asOp (j : Json) : R Op := do
+  match ← getStr j "op" with
+  | "cal_set" => pure (.calSet (← fld j "key" >>= asS) (← fld j "cal" >>= asCal))
+  | "cal_pop" => pure (.calPop (← fld j "key" >>= asS))
+  | "cal_move_end" => pure (.calMoveEnd (← fld j "key" >>= asS))
+  | "cal_reorder" => pure (.calReorder (← getList asS j "order"))
+  | "cal_edit" => pure (.calEdit (← fld j "key" >>= asS) (← fld j "edit" >>= asCalEdit))
+  | "info_set" => pure (.infoSet (← fld j "key" >>= asS) (← fld j "value" >>= asS))
+  | "info_pop" => pure (.infoPop (← fld j "key" >>= asS))
+  | "info_assign" => pure (.infoAssign (← getList (asPair asS asS) j "items"))
+  | "cfg" => pure (.cfg (← asCfgOp j))
+  | "cfg_assign" => pure (.cfgAssign (← fld j "config" >>= asCfgArr))
+  | "rename" => pure (.rename (← getList (asPair asS asS) j "names"))
+  | "add" => pure (.add (← fld j "name" >>= asS) (← fld j "dtype" >>= asS) (← getList (asList asInt) j "vals")
+      (← fld j "cal" >>= asOpt asCal))
+  | "remove" => pure (.remove (← getList asS j "names"))
+  | "data_reorder" => pure (.dataReorder (← getList asS j "order"))
+  | o => throw s!"bad operation {o}"
+
+def asStep (j : Json) : R Step := do
+  match ← getStr j "step" with
+  | "op" => pure (.op (← asOp j))
+  | "save" => pure (.save (← fld j "path" >>= asPath))
+  | "adopt" => pure .adopt
+  | o => throw s!"bad step {o}"
+
+/-- the operations applied (exactly: `fl = id`) to a laser before it is saved; `none`: one of them
+raises or is not modelled -/
+def applyPre (L : Laser) (ops : List Op) : Option Laser :=
+  ops.foldlM (fun M o => (applyOp id M o).toOption) L
+
+/-- does a mutator call of the history raise or leave the model (states followed as `runHistory` does)? -/
+def opFails (ver time : Str) : List Step → Laser → Option Laser → Bool
+  | [], _, _ => false
+  | .op o :: r, cur, last =>
+    match applyOp id cur o with
+    | .ok c => opFails ver time r c last
+    | .error _ => true
+  | .save p :: r, cur, _ =>
+    match save id ver time cur >>= load id p with
+    | .ok l => opFails ver time r cur (some l)
+    | .error _ => false
+  | .adopt :: r, _, last =>
+    match last with
+    | some l => opFails ver time r l last
+    | none => true
+
+def preDetermined (L : Laser) (ops : List Op) : Bool :=
+  stepsDetermined (ops.map Step.op) L none
+
 /-- the file `save` writes with another class name in its header (a malformed file: class and
 `config` member may disagree) -/
 def withHeaderClass (ver time cls : Str) (f : NpzFile) : NpzFile :=
@@ -116,6 +202,9 @@ def handle (op : String) (req : Json) : R Json := do
     let ver ← fld req "version" >>= asS
     let time ← fld req "time" >>= asS
     let n ← getNat req "chain"
+    let pre ← getList asOp req "pre"
+    let some L := applyPre L pre | pure (jObj [("pre_failed", jBool true)])
+    if !preDetermined L pre then return jObj [("pre_failed", jBool true)]
     let hyp := L.ok && versionOk ver && noNulEnd time && infoNoNul L.info && tabFree p.stem && noNulEnd p.stem
     pure (jObj [("model", jRes (generations id ver time p n L)),
                 ("spec", jRes (.ok (normalise p ver L))),
@@ -128,19 +217,29 @@ def handle (op : String) (req : Json) : R Json := do
     let v06 ← fld req "v06" >>= asS
     let v07 ← fld req "v07" >>= asS
     let legacy ← getBool req "legacy_class"
+    let pre ← getList asOp req "pre"
+    let some L := applyPre L pre | pure (jObj [("pre_failed", jBool true)])
+    if !preDetermined L pre then return jObj [("pre_failed", jBool true)]
     -- hypotheses of `loadV06_eq_spec` / `loadV07_eq_spec` / `load_save*_legacy` / `load_save`
     let hyp := L.ok && versionOk ver && noNulEnd time
       && noNulEnd v06 && (version06Ok v06 || !cmpGe v06 v060)
       && noNulEnd v07 && (version07Ok v07 || !cmpGe v07 v060)
       && noNulEnd ((dictGet L.info kName).getD [])
     let ren (f : NpzFile) : NpzFile := if legacy then f.mapCls legacyOf else f
-    pure (jObj [("model", jObj [("v06", jRes ((saveV06 id v06 L).map ren >>= load id p)),
-                                ("v07", jRes ((saveV07 id v07 L).map ren >>= load id p)),
-                                ("v08", jRes (save id ver time L >>= load id p))]),
+    -- an old file brought up to date: load it, save the loaded object, load again
+    let again (r : Except Err Laser) : Except Err Laser := r >>= fun L1 => save id ver time L1 >>= load id p
+    let m06 := (saveV06 id v06 L).map ren >>= load id p
+    let m07 := (saveV07 id v07 L).map ren >>= load id p
+    let hypR := hyp && infoNoNul L.info && noNulEnd p.stem
+    pure (jObj [("model", jObj [("v06", jRes m06), ("v07", jRes m07),
+                                ("v08", jRes (save id ver time L >>= load id p)),
+                                ("v06r", jRes (again m06)), ("v07r", jRes (again m07))]),
                 ("spec", jObj [("v06", jRes (specOld true p v06 L)),
                                ("v07", jRes (specOld false p v07 L)),
-                               ("v08", jRes (.ok (normalise p ver L)))]),
-                ("hyp", jBool hyp)])
+                               ("v08", jRes (.ok (normalise p ver L))),
+                               ("v06r", jRes ((specOld true p v06 L).map (normalise p ver))),
+                               ("v07r", jRes ((specOld false p v07 L).map (normalise p ver)))]),
+                ("hyp", jBool hyp), ("hyp_resave", jBool hypR)])
   | "c01.crossclass" =>
     -- a file saved from `L` whose header names the class `cls`: compared with the code only
     let L ← fld req "laser" >>= asLaser
@@ -148,7 +247,39 @@ def handle (op : String) (req : Json) : R Json := do
     let ver ← fld req "version" >>= asS
     let time ← fld req "time" >>= asS
     let cls ← fld req "cls" >>= asS
+    let pre ← getList asOp req "pre"
+    let some L := applyPre L pre | pure (jObj [("pre_failed", jBool true)])
+    if !preDetermined L pre then return jObj [("pre_failed", jBool true)]
     pure (jObj [("model", jRes ((save id ver time L).map (withHeaderClass ver time cls) >>= load id p))])
+  | "c01.history" =>
+    -- the constructor call, then a history of mutator calls, saves (+ loads) and adoptions of the loaded object:
+    -- the state is tracked here from the operations, never read back from the object
+    let kind ← (do match ← getStr req "kind" with
+      | "laser" => pure Kind.laser
+      | "srr" => pure Kind.srr
+      | k => throw s!"bad kind {k}")
+    let fields ← getList (asPair asS asS) req "fields"
+    let layers ← getList asLayer req "layers"
+    let cal ← getList (asPair asS asCal) req "cal"
+    let cfg ← fld req "config" >>= asCfgArr
+    let info ← getList (asPair asS asS) req "info"
+    let ver ← fld req "version" >>= asS
+    let time ← fld req "time" >>= asS
+    let steps ← getList asStep req "steps"
+    let ctorDet := match cfg with
+      | .srr _ _ s w _ => warmupDetermined w s
+      | _ => true
+    match construct' id kind fields layers cal cfg info with
+    | .error e => pure (jObj [("ctor", jErr e)])
+    | .ok L =>
+      let oks := historyOks id ver steps L none
+      let okv := versionOk ver && noNulEnd time
+      pure (jObj [("ctor", jStr "ok"),
+                  ("model", jList jRes (runHistory id ver time steps L none)),
+                  ("spec", jList jRes (specHistory id ver steps L none)),
+                  ("oks", jList (fun b => jBool (b && okv)) oks),
+                  ("op_failed", jBool (opFails ver time steps L none)),
+                  ("determined", jBool (ctorDet && stepsDetermined steps L none))])
   | _ => throw s!"unknown op {op}"
 
 end PewDriver.C01
